@@ -497,7 +497,7 @@ Print Assumptions C20_float_new_matrix3_times_basis_vectors.
 (* ================= the threshold consts.Minima is the one regenerated from the Go source ================= *)
 (* Quat.minima (the real threshold of the fallback test `cos+1 < Minima` and of the second-axis test, used by every C20_rotation_* theorem)
    is the generated decimal constant, and VecF.c_minima (the binary64 threshold of the executable model) is the float nearest to it:
-   editing consts.Minima in the Go source breaks this theorem (through GenEqConst.gen_Minima_eq). *)
+   editing consts.Minima in the Go source breaks this theorem (through GenEqConstMinima.gen_Minima_eq). *)
 Theorem C20_generated_Minima_is_the_model_threshold :
   minima = dec2R Generated.Minima /\ fin c_minima /\ Rabs (rv c_minima - minima) <= / IZR (2 ^ 87).
 Proof. exact minima_generated_both. Qed.
